@@ -224,7 +224,8 @@ class AXILSlave(Agent):
                 self.memory[a >> 2] = old
         if self.silent_from is not None and t >= self.silent_from and not self.is_silent:
             # die only with nothing accepted-but-unanswered (that case is a listed known finding, replayed separately)
-            if self.silent_mid_request or not (self.awq or self.wq or self.wr_pending or self.rd_pending):
+            # (a write whose address OR data alone was accepted is not complete: dying there is allowed)
+            if self.silent_mid_request or not (self.wr_pending or self.rd_pending):
                 self.is_silent = True
                 self.bench.fault("silent_slave")
                 self.bench.event(self.name, "silent", t)
